@@ -35,7 +35,7 @@ def check(ctx):
     build_s = cargo_build(ctx, ["addrbook"])
     nrand, nfilter, perclass, ndial = (30, 1, 3, 300) if ctx.quick() else (600, 6, 10, 6000)
     summ, _ = harness(ctx, "addrbook", ["--behaviours", ctx.path("behs.jsonl"), "--random", nrand, "--len", 300, "--filter", nfilter,
-                                        "--per-class", perclass, "--dial", ndial, "--seed", ctx.seed, "--out", ctx.path("trace.ndjson")])
+                                        "--per-class", perclass, "--dial", ndial, "--dial2", ndial, "--seed", ctx.seed, "--out", ctx.path("trace.ndjson")])
     log("HARNESS: %s (build %ss)" % (summ, build_s))
     lines = read_lines(ctx.path("trace.ndjson"))
     nseg, nev, rejects = validate_all(ctx, "AddrBookTrace.tla", "AddrBookTrace.cfg", lines, mode="prop", chunk_lines=60000)
